@@ -313,6 +313,11 @@ def main(argv=None):
         with open(os.path.join(ROOT, "evidence", pid + ".json"), "w") as f:
             json.dump(ev, f, indent=1, sort_keys=True)
             f.write("\n")
+    if exit_code == 0 and getattr(ctx, "deferred", None):
+        # part of the check could not be decided (e.g. the .pyx uses a construct the model translator does not know):
+        # whatever was decided found nothing, but silence would overstate it
+        print("HARNESS-ERROR property=%s %s" % (pid, ctx.deferred))
+        return 2
     print("%s %s tier=%s seed=%d evaluations=%d distinct=%d violations=%d known=%d wall=%.1fs %s"
           % ("FAIL" if exit_code else "PASS", pid, a.tier, seed, ctx.n, len(ctx.out), new_viol,
              len(reported_known), wall,
